@@ -231,6 +231,9 @@ def handleFx (fx : Fx) (items : List Sexp) : String :=
   | [.atom "withbounds", dl, ss, bs, be, ok] => match dl.int?, ss.int?, bs.int?, be.int?, ok.int? with
     | some dl, some ss, some bs, some be, some ok => resStr optPairStr (withBounds dl ss bs be (ok == 1))
     | _, _, _, _, _ => bad
+  | [.atom "strwithbounds", dl, ss, se, bs, be, ok] => match dl.int?, ss.int?, se.int?, bs.int?, be.int?, ok.int? with
+    | some dl, some ss, some se, some bs, some be, some ok => resStr optPairStr (stringWithBounds dl ss se bs be (ok == 1))
+    | _, _, _, _, _, _ => bad
   | [.atom "strsplit", dl, ss, off, ok] => match dl.int?, ss.int?, off.int?, ok.int? with
     | some dl, some ss, some off, some ok => resStr optIntStr (stringSliceSplit dl ss off (ok == 1))
     | _, _, _, _ => bad
